@@ -50,6 +50,7 @@ type scenario struct {
 	Acc2       *types.Var    // second getter for order scenarios on one element
 	Fields     bool          // subject parameter is the []string of '/'-separated fields of the offending ID
 	Consts     string        // constant bool arguments of this activation: "2=false,3=true"
+	SField     int           // 1 + index of the field of the struct parameter Param that holds the subject (0 = the parameter itself)
 	NonEmpty   int           // 1 + index of a list parameter assumed non-empty (0 = none)
 	NonEmptyFn *ssa.Function // the list returned (result 0) by this function is non-empty on success
 }
@@ -121,13 +122,36 @@ func (e *scEngine) isFailureReturn(f *ssa.Function, r *ssa.Return) bool {
 		return fc(r)
 	}
 	if errResultIndex(f) < 0 {
-		// helpers reporting failure through a trailing bool: `return ..., false`
-		n := len(r.Results)
-		if n >= 1 {
-			if k, ok := resolve(r.Results[n-1]).(*ssa.Const); ok && k.Value != nil && k.Value.String() == "false" {
-				if b, isB := r.Results[n-1].Type().Underlying().(*types.Basic); isB && b.Kind() == types.Bool {
-					return true
+		// helpers reporting failure through a bool result: `return ..., false` where the
+		// same result position is the constant true on other returns (an ok flag)
+		for i := len(r.Results) - 1; i >= 0; i-- {
+			b, isB := r.Results[i].Type().Underlying().(*types.Basic)
+			if !isB || b.Kind() != types.Bool {
+				continue
+			}
+			k, ok := resolve(r.Results[i]).(*ssa.Const)
+			if !ok || k.Value == nil || k.Value.String() != "false" {
+				continue
+			}
+			if i == len(r.Results)-1 {
+				return true
+			}
+			// a flag in the middle: every return carries a constant there, some of them true
+			allConst, someTrue := true, false
+			for _, o := range returnsOf(f) {
+				if i >= len(o.Results) {
+					allConst = false
+					continue
 				}
+				ok2, isK := resolve(o.Results[i]).(*ssa.Const)
+				if !isK || ok2.Value == nil {
+					allConst = false
+				} else if ok2.Value.String() == "true" {
+					someTrue = true
+				}
+			}
+			if allConst && someTrue {
+				return true
 			}
 		}
 		return false
@@ -192,6 +216,34 @@ func (c *simCtx) isBase(v ssa.Value) bool {
 		if c.isBase(ld) {
 			return true
 		}
+	}
+	if !c.sc.Elem && c.sc.SField > 0 {
+		// the subject travels inside a struct parameter: field SField-1 of it
+		if c.sc.Param >= len(c.f.Params) {
+			return false
+		}
+		p := ssa.Value(c.f.Params[c.sc.Param])
+		isP := func(x ssa.Value) bool {
+			if x == p {
+				return true
+			}
+			// spilled value receiver: local copy of the parameter
+			if al, ok := x.(*ssa.Alloc); ok {
+				if sv := singleStore2(al); sv != nil && sv == p {
+					return true
+				}
+			}
+			return false
+		}
+		if fl, ok := v.(*ssa.Field); ok && fl.Field == c.sc.SField-1 && isP(fl.X) {
+			return true
+		}
+		if ld, ok := loadOf(v); ok {
+			if fa, ok := ld.(*ssa.FieldAddr); ok && fa.Field == c.sc.SField-1 && isP(fa.X) {
+				return true
+			}
+		}
+		return false
 	}
 	if !c.sc.Elem {
 		if c.sc.Param < len(c.f.Params) && v == ssa.Value(c.f.Params[c.sc.Param]) {
@@ -980,7 +1032,7 @@ func (c *simCtx) mapScenario0(call *ssa.Call, g *ssa.Function) (scenario, bool) 
 		case sc.Acc == nil && c.isSubject(ra):
 			// subject itself passed: callee subject is its parameter
 			out := sc
-			out.Param, out.Elem = i, false
+			out.Param, out.Elem, out.SField = i, false, 0
 			return out, true
 		case sc.Acc != nil && c.isSubject(ra):
 			out := sc
@@ -1003,6 +1055,10 @@ func (c *simCtx) mapScenario0(call *ssa.Call, g *ssa.Function) (scenario, bool) 
 		case (sc.Kind == scParseFail || sc.Kind == scArity) && sc.Acc == nil && c.splitOfSubject(ra):
 			out := sc
 			out.Param, out.Elem, out.Fields = i, false, true
+			return out, true
+		case sc.Acc == nil && sc.SField == 0 && c.fieldHoldingSubject(a) > 0:
+			out := sc
+			out.Param, out.Elem, out.SField = i, false, c.fieldHoldingSubject(a)
 			return out, true
 		default:
 			// one-element list literal containing the subject
@@ -1719,4 +1775,44 @@ func decideCmp2(op token.Token, xlo, xhi, ylo, yhi float64) (bool, bool) {
 		}
 	}
 	return false, false
+}
+
+// fieldHoldingSubject: v is (a load of / pointer to) a local struct one of
+// whose fields was assigned the subject and nothing else: 1 + field index.
+func (c *simCtx) fieldHoldingSubject(v ssa.Value) int {
+	var al *ssa.Alloc
+	switch x := stripConv(v).(type) {
+	case *ssa.UnOp:
+		if x.Op == token.MUL {
+			al, _ = x.X.(*ssa.Alloc)
+		}
+	case *ssa.Alloc:
+		al = x
+	}
+	if al == nil || al.Referrers() == nil {
+		return 0
+	}
+	if _, isStruct := al.Type().(*types.Pointer).Elem().Underlying().(*types.Struct); !isStruct {
+		return 0
+	}
+	out := 0
+	for _, ref := range *al.Referrers() {
+		fa, ok := ref.(*ssa.FieldAddr)
+		if !ok {
+			continue
+		}
+		n, hit := 0, false
+		for _, r2 := range *fa.Referrers() {
+			if st, ok := r2.(*ssa.Store); ok && st.Addr == ssa.Value(fa) {
+				n++
+				if c.isSubject(st.Val) {
+					hit = true
+				}
+			}
+		}
+		if hit && n == 1 {
+			out = fa.Field + 1
+		}
+	}
+	return out
 }
